@@ -53,3 +53,21 @@ CHECKS["C12"] = dict(
                  "the underlying reader returns data fragments and io.EOF separately (thorough tier: also together)"],
     outside=["payloads beyond the listed chunk-size vectors", "more than one cut position (quick) / two (thorough, short streams)", "ECDSA payload types"],
 )
+
+CHECKS["C07"] = dict(
+    explanation="backend.Walk (real SSA incl. io/fs.WalkDir, sort, strings) over an in-memory fs.FS whose shape is case-split and whose "
+                "names, prefix, delimiter and marker are symbolic ASCII bytes, against the S3 listing rules computed over the same key set: "
+                "one unbounded page (set equality and order), pagination by NextMarker (termination, each entry exactly once, page size), "
+                "and delimiter-less listing from an arbitrary marker.",
+    harnesses=[
+        dict(name="H07-unpaged", pkgs=["./backend"], entry="backend.VfWalkUnpaged", native=True, reach=["listed"]),
+        dict(name="H07-paged", pkgs=["./backend"], entry="backend.VfWalkPaged", native=True, reach=["paged"]),
+        dict(name="H07-marker", pkgs=["./backend"], entry="backend.VfWalkMarker", native=True, reach=["listed"]),
+        dict(name="H07-witness", pkgs=["./backend"], entry="backend.VfWalkWitness", witness=True),
+    ],
+    assumptions=["the file system lists directory entries sorted by name (os.ReadDir contract)",
+                 "plain (non-object) directories are never empty (gateway prunes empty parents)",
+                 "names are ASCII without '/' and NUL"],
+    outside=["more than 2 (quick) / 3 (thorough) nodes, names longer than 2 bytes, multi-byte UTF-8", "size/ETag reporting (fileToObj; covered under C01)",
+             "ListObjectVersions paging"],
+)
